@@ -485,6 +485,9 @@ fn probe_state(cx: &mut Ctx, st: &GState) {
         cx.probe("gen.state_unknown");
         return;
     }
+    // engine-state class: (first active context, one past the last active
+    // context, fork limit, last-hash active, size declared)
+    cx.classes.insert((st.start << 24) | (st.end << 16) | (st.limit << 8) | ((st.is_last as u64) << 1) | (st.fixed as u64));
     if st.start >= 1 {
         cx.probe("gen.elim>=1");
     }
